@@ -354,6 +354,21 @@ def run_history(P, N, hist, rec, r, workdir, failpoints, hh):
                     rec.violation("failed-operation-had-effect", "step %d %s%r: statement %d of %d failed (operation raised %s) but the stored map changed: %r -> %r" % (
                         step, op, a, k, nstmt, res[1], short_map(before), short_map(after)), dict(pay, step=step, stmt=k))
                     return False
+                # ... not for the name server that made the failed attempt either, and not later: after one more (successful) operation through the
+                # same name server the stored map is the earlier map plus that operation's entry
+                same = {n: (str(u), frozenset(m or ())) for n, (u, m) in ns2.list(return_metadata=True).items()}
+                if same != before:
+                    rec.violation("failed-operation-had-effect:visible-to-same-server", "step %d %s%r: statement %d of %d failed (operation raised %s) but the name server that made the attempt now lists %r (before: %r)" % (
+                        step, op, a, k, nstmt, res[1], short_map(same), short_map(before)), dict(pay, step=step, stmt=k))
+                    return False
+                ns2.register("zz.after-the-failure", "PYRO:after@h:1")
+                after = listing_of(N, scratch)
+                want = dict(before)
+                want["zz.after-the-failure"] = ("PYRO:after@h:1", frozenset())
+                if after != want:
+                    rec.violation("failed-operation-had-effect:after-next-operation", "step %d %s%r: statement %d of %d failed (operation raised %s); after the next successful operation of the same name server the stored map is %r, "
+                                  "expected the earlier map plus that one entry %r" % (step, op, a, k, nstmt, res[1], short_map(after), short_map(want)), dict(pay, step=step, stmt=k))
+                    return False
                 rec.count("failpoints_ok")
             if os.path.exists(scratch):
                 os.remove(scratch)
